@@ -22,6 +22,9 @@ CLAIMS = {
          "unsigned / foreign / other-authority / delegate 0,1,2 / emptied-token-account / coherent-foreign-(config,authority) variants; TLC checks ok => Guard (module WpIface: the authority "
          "recorded in the abstract state signed), base instructions succeed, failures are atomic; toy instance: OwnerSigned",
          "exhaustive over the finite matrix of the prepared world; the spec's Guard is the oracle", "4 C04"),
+ "C14": ("trace validation of every recorded swap on adaptive-fee pools (random valid constants, arbitrary non-decreasing clocks, zero-liquidity gaps, limits inside tick-group boundary "
+         "ticks): the spec's UpdateReference / Acc / AdaptiveRate / TotalRate are evaluated per step for every tick group the step's price segment spans, and on the stored variables "
+         "after the swap; trade-enable time; major-swap timestamp", "needs the swap-step hook; the tick groups spanned by a step are computed with the program's own tick math (C09 covers it); no toy-scale model of the volatility schedule yet", "4 C14"),
  "C15": ("spec -> impl replay of a substitution matrix + trace validation: for every slot of every fund-moving/privileged instruction, single-account substitutions by accounts of the same "
          "kind; TLC checks ok => interface relations of module WpIface (vault of the pool for that token, mint, position/tick array/oracle of the pool, reward vault of the index, "
          "token program owning the mint, memo program), two-hop distinct pools sharing the intermediate mint",
